@@ -156,7 +156,7 @@ def _settings(n, tier, steps=None):
     kw = dict(
         max_examples=n, database=None, deadline=None, derandomize=False,
         report_multiple_bugs=False, suppress_health_check=list(HealthCheck),
-        phases=[Phase.generate, Phase.shrink], print_blob=False,
+        phases=[Phase.generate] if os.environ.get('VERIF_NO_SHRINK') else [Phase.generate, Phase.shrink], print_blob=False,
     )
     if steps is not None:
         kw['stateful_step_count'] = steps
